@@ -57,6 +57,7 @@ struct ScanOp
   std::vector<uint32_t> sizes;
   uint64_t notready = 0;
   int abandon = 0;
+  int no_filesize = 0;  // block iterator without a file_size function: `filesize` is undefined in this scan
   int value = 0;
 };
 
@@ -74,6 +75,7 @@ static std::string do_scan(ys_rules* R, ys_scanner* sc, const bytes& b, const Sc
   o.block_sizes = op.sizes.data();
   o.notready_mask = op.notready;
   o.abandon_after = op.abandon;
+  o.no_filesize = op.no_filesize;
   char* t = nullptr;
   ys_scan(R, sc, (const uint8_t*) b.data(), b.size(), &o, &t);
   std::string s = t;
@@ -99,6 +101,13 @@ std::string run_case(Src& s, CaseInfo& ci)
   for (size_t i = 0; i < gs.rules.size(); i++) all.push_back((int) i);
   std::vector<SourceUnit> units = units_for(gs, all);
   units.insert(units.begin(), SourceUnit{"default", std::string(FIXED_RULES) + many_rule(), YS_ADD_STRING});
+  // twelve more namespaces (per-namespace scanner state beyond the first byte / word of its bitmaps),
+  // each with a global rule whose verdict depends on the kind of buffer
+  for (int k = 0; k < 12; k++)
+    units.push_back(SourceUnit{strf("m%02d", k),
+                               strf("global rule gate { condition: uint8(0) != 0x%02x }\nrule plain { condition: filesize >= 0 }\n",
+                                    k % 3 == 0 ? 0x4d : k % 3 == 1 ? 0x7f : 0x78),
+                               YS_ADD_STRING});
 
   // buffers of different kinds
   std::vector<bytes> bufs = {g_samples.pe, g_samples.elf, g_samples.macho, "", "xxabcxx", "abc abc abbbc ELF"};
@@ -153,6 +162,7 @@ std::string run_case(Src& s, CaseInfo& ci)
           op.notready = s.range(1, 63);
           op.abandon = s.coin(50) ? 1 : 0;
         }
+        op.no_filesize = s.coin(30);
       }
     }
     else if (op.kind == 1)
@@ -174,9 +184,9 @@ std::string run_case(Src& s, CaseInfo& ci)
   for (auto& op : ops)
   {
     if (op.kind == 0)
-      ci.desc += strf("scan %s[%zu bytes] entry=%d script=%d@%d blocks=%d notready=0x%llx abandon=%d\n",
+      ci.desc += strf("scan %s[%zu bytes] entry=%d script=%d@%d blocks=%d notready=0x%llx abandon=%d%s\n",
                       kinds[op.buf].c_str(), bufs[op.buf].size(), op.entry, op.script_action, op.script_k, op.nblocks,
-                      (unsigned long long) op.notready, op.abandon);
+                      (unsigned long long) op.notready, op.abandon, op.no_filesize ? " iterator-without-file_size" : "");
     else
       ci.desc += strf("%s %d\n", op.kind == 1 ? "set_flags" : op.kind == 2 ? "set_timeout" : "define xi =", op.value);
   }
